@@ -133,7 +133,8 @@ def check_one(ctx, spec, Asm, built, A, sabs, frontend):
     ctx.flag("dim%d" % spec["dim"], "arity%d" % spec["arity"], spec["kind"], "frontend_" + frontend,
              "vector_bfuns" if spec.get("comps") else None, "two_space" if spec.get("spaces") else None,
              "nonsquare_components" if spec.get("comps") and len(set(spec["comps"])) > 1 else None,
-             "nurbs_geo" if spec["geo"].get("nurbs") else None,
+             "nurbs_geo" if spec["geo"].get("nurbs") else None, "spacetime" if spec.get("spacetime") else None,
+             "time_derivative" if "dt" in ops else None,
              "physical_second_derivs" if ("hess" in ops and "physical" in ops) else None,
              *("fn_" + o[3:] for o in ops if o.startswith("fn:")))
     return len(nz) >= 2
@@ -189,7 +190,7 @@ def check_batch(spec, ctx):
         if nt:
             ctx.count("forms_nontrivial")
     # string front-end for the first form of the batch (separately compiled: costs one more compile)
-    if spec.get("string") and prepared:
+    if spec.get("string") and prepared and not prepared[0][0].get("spacetime"):
         fs, built, A, sabs = prepared[0]
         text = " + ".join(to_string(t) for t in fs["terms"])
         comps = fs.get("comps")
@@ -212,7 +213,9 @@ def check_batch(spec, ctx):
 
 @st.composite
 def strat_batch(draw, nforms=5):
-    forms = [draw(gf.form(depth=2, max_terms=2)) for _ in range(nforms)]
+    # one form in six is a space-time form (VForm(spacetime=True) on a space-time cylinder)
+    forms = [draw(gf.st_form(depth=2, max_terms=2)) if draw(st.integers(0, 5)) == 0 else draw(gf.form(depth=2, max_terms=2))
+             for _ in range(nforms)]
     return {"forms": forms, "mode": draw(st.sampled_from(["batch", "batch", "batch", "single"])) if nforms > 1 else "single",
             "string": draw(st.integers(0, 3)) == 0}
 
